@@ -30,6 +30,13 @@ CHECKS = {
         'against each other on valid, malformed and over-deep inputs.',
    note=TB + 'Reductions (tree_reduce/sum/max/min/all/any) and tree_flatten_with_accessor are checked on the implementation only (they are one-line compositions in ops.py). Known finding K1 is matched by structure (entries/children mismatch with a failing descendant) and outcome pattern (only tree_iter differs, with RuntimeError).',
    design='§7 C03'),
+ 'C04': dict(
+   technique='Coq proof (path invariant carried through flatten-with-path by induction) + extracted-model correspondence of typed entries and of path application + accessor oracle',
+   text='Theorems: for every tree whose custom nodes declare pairwise distinct entries and every configuration, the i-th path applied to the tree entry by entry returns the i-th leaf; those paths are the ones recomputed from the treespec; there are as many paths as leaves. '
+        'The run compares paths, typed accessor entries (entry, entry class, parent node type, kind) and the result of applying every path with the model, and checks on the implementation: accessor(tree) is the i-th leaf object, .path, entry typing and field names, distinct and prefix-free paths, '
+        'accessor ==/hash consistency (incl. a pool of accessors for the same positions obtained under different registrations), slicing/concatenation, and evaluation of the generated code for literal keys.',
+   note=TB + 'PARTIAL: distinctness / prefix-freeness, accessor equality/hash (they compare bytecode of the entry classes) and codify strings are checked on the implementation only. GetAttrEntry with non-string entries cannot be applied and is skipped.',
+   design='§7 C04'),
  'C05': dict(
    technique='Coq proof (trace monad over the mapped function) + extracted-model correspondence of results and call traces + oracle on all map variants',
    text='Theorems: for every total f, tree_map calls f exactly on the rows (leaf_i(t), sub_i(rest_1), ...) once per leaf in flatten order and returns the treespec of t filled with f\'s values; '
